@@ -54,8 +54,11 @@ class G(object):
     if r < 0.92:
       return '%s < %s' % (self.opnd(), self.opnd())
     if r < 0.95 and self.lazy:
-      return self.r.choice(['%s and %s', '%s if %s else 0', '[q for q in (%s, %s)]', '%s < %s < 9']).replace(
-          '%s', '{}').format(self.T(), self.T()) if True else ''
+      form = self.r.choice(['{0} and {1}', '{0} if {1} else 0', '[q for q in ({0}, {1})]', '{0} < {1} < 9',
+                            # effect two levels below the lazy construct (argument of an operand call)
+                            'b and hp({0}, {1})', 'b or hp({0})', 'hp({0}) if b else hp({1})',
+                            '(x > 1) and (hp({0}) > 0)', 'not b or hp(hp({0}), 1)'])
+      return form.format(self.T(), self.T())
     return self.T()
 
   def stmt(self, depth=0):
